@@ -5,9 +5,10 @@
 
    Authenticator, per station:  idle -> m1 (message 1 sent) -> m3 (valid message 2 received, message 3 sent) -> done
      (message 4 received, keys installed).  Every transmission carries a replay counter one larger than the last.  A
-     timer may re-send message 1 / 3 with an incremented counter (at most R re-sends per handshake); the AP may
-     abandon a handshake and start a new one with a new ANonce (station re-associates; also models re-keying from
-     done), at most MaxHs(s) handshakes per station.
+     timer may re-send message 1 / 3 with an incremented counter (at most R re-sends per handshake); the station may
+     (re-)associate at any time -- the AP gave up on the running handshake, or the station comes back after a completed
+     one: frames in flight are flushed, both ends drop keys and handshake state, and the AP starts a new handshake
+     with a new ANonce; at most MaxHs(s) handshakes per station.
      Lenient = TRUE : a message 2 / 4 is accepted if it echoes the counter of ANY message 1 / 3 still outstanding
                       for this handshake (hostapd keeps the last few counters valid for exactly this reason);
      Lenient = FALSE: only the counter of the latest transmission is accepted.
@@ -26,7 +27,14 @@
      TypeOK, KeySound (abs and impl only ever hold keys the supplicant installed), KeysNeedAp, ImplSubAbs
      CapturerHasKeys   Completed(s) => the capturer-fed table holds the AP's key         (design property)
      NoMissedData      every data frame that DecrypterAbs decrypts is decrypted by the capturer-fed table
-   With Variant = "code" and a lenient authenticator the last two are REFUTED (F17): M1, M2, M1(re-sent), M3, M4.
+   Results (cfg files of this directory; tools/families/c09.py):
+     Variant "code",  Lenient, reuse   REFUTED (F17): M1, M2, M1(re-sent), M3, M4 -- the re-sent message 1 restarts the
+                                       capture and message 3 then clears it                  (FourWay_code_lenient.cfg)
+     Variant "code",  strict,  fresh   REFUTED: M1, M1(re-sent), M2(SNonce 1), M2(SNonce 2), M3, M4 -- "skip repeated"
+                                       keeps the first message 2, the MIC of message 4 fails   (FourWay_code_strict_fresh.cfg)
+     Variant "code",  strict,  reuse   holds                                                  (FourWay_code_strict_*.cfg)
+     Variant "no_skip" (model mutant)  REFUTED                                                (FourWay_noskip_strict.cfg)
+     Variant "ideal"  (proposed repair) holds for lenient/strict authenticators and both supplicants (FourWay_ideal_*.cfg)
 
    The same module is the scenario generator for conformance (Record = TRUE keeps the sniffer-visible history; see
    FourWayGen). *)
